@@ -306,16 +306,17 @@ def adaptive_rejection(ctx):
                         else:
                             ctx.violation(dict(kind="adaptive_out_of_range_local_cbr_accepted", returned=_f(r), **base), replay=rp)
                             continue
-                        # the rejected call must not have influenced delta: the next valid evaluation equals the reference
-                        r2 = ref.copy()
-                        want = r2.step(0.5, prev)
+                        # the rejected value must leave no trace: the next valid evaluation returns exactly what an
+                        # untouched snapshot of the same real object returns (and that one is judged by the sequence check)
+                        a3 = copy.copy(alg)
                         try:
                             got = _adaptive_call(a2, mode, 0.5, prev)
+                            ctrl = _adaptive_call(a3, mode, 0.5, prev)
                         except Exception as e:  # noqa: BLE001
                             ctx.violation(dict(kind="adaptive_in_range_input_raises", exc=type(e).__name__, **base), replay=rp)
                             continue
-                        if abs(F(got) - want) > TOL:
-                            ctx.violation(dict(kind="adaptive_rejected_value_changed_delta", got=_f(got), want=_f(float(want)), **base), replay=rp)
+                        if got != ctrl:
+                            ctx.violation(dict(kind="adaptive_rejected_value_changed_delta", got=_f(got), want=_f(ctrl), **base), replay=rp)
         # what happens with a global CBR outside [0,1] (the statement is silent; reported, not judged)
         for badv in BAD_CBR:
             alg, _ref = _mk_adaptive(pi)
@@ -400,6 +401,17 @@ class GateWorld(env.World):
         self.bad = []
         self.view_open = True                 # gate view used for the next event (see _observe)
         self.tag = None
+
+    def __deepcopy__(self, memo):
+        # snapshot: the REAL object is deep-copied; the harness's own fields are immutable values (Fractions) -> shallow
+        n = GateWorld.__new__(GateWorld)
+        n.__dict__.update(self.__dict__)
+        n.timers = copy.deepcopy(self.timers, memo)
+        n.threads = copy.deepcopy(self.threads, memo)
+        n.gk = copy.deepcopy(self.gk, memo)
+        n.ref = copy.copy(self.ref)
+        n.bad = []
+        return n
 
 
 def _q(x, unit):
@@ -700,9 +712,9 @@ def run(ctx):
         pool.join()
     if thorough:
         runs = [("gate_planned", 0.0, "planned", 24), ("gate_planned_origin_86400", 86400.0, "planned", 24),
-                ("gate_wide", 0.0, "wide", 12), ("gate_wide_origin_86400", 86400.0, "wide", 8)]
+                ("gate_wide", 0.0, "wide", 11), ("gate_wide_origin_86400", 86400.0, "wide", 8)]
     else:
-        runs = [("gate_planned", 0.0, "planned", 18), ("gate_wide", 0.0, "wide", 9)]
+        runs = [("gate_planned", 0.0, "planned", 18), ("gate_wide", 0.0, "wide", 6)]
     s3, t3, xc, o3, smp3, d3, complete, caps = gate_part(ctx, ctx.seed, runs)
     ctx.coverage.update(
         states=s1 + s2 + s3, transitions=t1 + t2 + t3, traces_validated_against_impl=tr1 + tr2 + t3,
@@ -794,6 +806,7 @@ def replay(path):
         if rp["mode"] == "global":
             kw = dict(cbr_local=DECOY[0], cbr_local_previous=DECOY[1], cbr_global=0.5, cbr_global_previous=prev)
         kw[rp["argument"]] = _pf(rp["value"])
+        ctrl = _adaptive_call(copy.copy(alg), rp["mode"], 0.5, prev)
         try:
             r = alg.update(**kw)
             print("accepted ->", r)
@@ -801,9 +814,8 @@ def replay(path):
         except Exception as e:  # noqa: BLE001
             print("rejected with", type(e).__name__)
             got = _adaptive_call(alg, rp["mode"], 0.5, prev)
-            want = ref.step(0.5, prev)
-            print("next evaluation impl", got, "ref", float(want))
-            bad = [] if abs(F(got) - want) <= TOL else [dict(kind="adaptive_rejected_value_changed_delta")]
+            print("next evaluation after the rejected call", got, "without it", ctrl)
+            bad = [] if got == ctrl else [dict(kind="adaptive_rejected_value_changed_delta")]
     elif part == "gate":
         m = GateModel(rp.get("origin", 0.0), rp.get("delta0", "mid"), 0, rp.get("menu", "planned"))
         w = m.init()
